@@ -63,6 +63,29 @@ def maybe_org_edit(rng, spec, prob=0.3):
     return spec
 
 
+def maybe_abs_edit(rng, spec, prob=0.3):
+    """Extend a two-call history by an edit of a worker's / facility's own absence list between the calls.  spec["model"]
+    holds the list *after* the edit."""
+    h = spec.get("history")
+    if h is None or h.get("org_edit") or rng.random() >= prob:
+        return spec
+    m = spec["model"]
+    pool = [("worker", w) for tm in m["teams"] for w in tm["workers"]] + [("facility", f) for wp in m["wps"] for f in wp["facs"]]
+    if not pool:
+        return spec
+    kind, r = rng.choice(pool)
+    old = list(r.get("abs", []))
+    if old and rng.random() < 0.5:
+        new = old + [rng.randint(0, 14) for _ in range(rng.randint(1, 3))]
+    else:
+        new = gen.gen_absence(rng, 14, rng.randint(1, 4))
+    r["abs"] = list(new)
+    h["org_edit"] = [["set_abs", kind, r["id"], old, list(new)]]
+    if h.get("k") is None:
+        h["k"] = rng.randint(0, 12)
+    return spec
+
+
 def pre_edit_model(model, ops):
     import copy
     m = copy.deepcopy(model)
@@ -74,6 +97,14 @@ def pre_edit_model(model, ops):
             w = next(w for w in m["teams"][tb]["workers"] if w["id"] == wid)
             m["teams"][tb]["workers"].remove(w)
             m["teams"][ta]["workers"].append(w)
+        elif op[0] == "set_abs":
+            _, kind, rid, old, new = op
+            for r in ([w for tm in m["teams"] for w in tm["workers"]] if kind == "worker" else [f for wp in m["wps"] for f in wp["facs"]]):
+                if r["id"] == rid:
+                    if old:
+                        r["abs"] = list(old)
+                    else:
+                        r.pop("abs", None)
     return m
 
 
@@ -90,6 +121,21 @@ def apply_org_edit(p, model, ops):
             w = next(w for w in old.worker_list if w.ID == wid)
             old.worker_list.remove(w)
             new.add_worker(w)
+        elif op[0] == "set_abs":
+            _, kind, rid, old_, new_ = op
+            pool = [w for tm in p.organization.team_list for w in tm.worker_list] if kind == "worker" else \
+                [f for wp in p.organization.workplace_list for f in wp.facility_list]
+            r = next(x for x in pool if x.ID == rid)
+            if op[4] and list(op[4])[:len(old_)] == list(old_) and len(r.absence_time_list) == len(old_):
+                r.absence_time_list.extend(list(new_)[len(old_):])  # the user's list extended in place
+            else:
+                r.absence_time_list = list(new_)
+
+
+def maybe_from_json(rng, spec, prob=0.08):
+    if spec.get("history") is None and spec.get("prelude_backward") is None and not spec["model"].get("ext_preds") and rng.random() < prob:
+        spec["from_json"] = True
+    return spec
 
 
 def maybe_prelude_backward(rng, spec, prob=0.1):
@@ -99,6 +145,10 @@ def maybe_prelude_backward(rng, spec, prob=0.1):
 
 
 def history_candidates(spec):
+    if spec.get("from_json"):
+        c = dict(spec)
+        c.pop("from_json")
+        yield c
     if spec.get("prelude_backward") is not None:
         c = dict(spec)
         c.pop("prelude_backward")
@@ -145,6 +195,21 @@ def run_forward(spec, **kw):
         if pb.get("limit") is not None:
             pcfg["max_time"] = pb["limit"]
         scen.simulate(tr.project, pcfg, want_snap=False, backward=pb)
+        tr.rec, tr.out = scen.simulate(tr.project, spec["cfg"], **kw)
+        tr.ix = tr.rec.ix
+        tr.log_offset = 0
+        tr.history = None
+        return tr
+    if hist is None and spec.get("from_json"):
+        # the model is written to a file before it was ever simulated and read into a new project: the observed run is the
+        # restored project's (a model read from a file is a model)
+        tr = scen.Trace()
+        tr.model, tr.cfg = spec["model"], spec["cfg"]
+        tr.built = B.build(spec["model"], spec.get("ranks"))
+        tr.absence = set(spec["cfg"].get("absence", []))
+        new, ow, orr = scen.save_load(tr.built.project, "mem:model.json", spec.get("ranks"))
+        tr.project = new if new is not None else tr.built.project
+        tr.restored_from_json = new is not None
         tr.rec, tr.out = scen.simulate(tr.project, spec["cfg"], **kw)
         tr.ix = tr.rec.ix
         tr.log_offset = 0
@@ -230,6 +295,8 @@ def base_result(tr):
         res.count("history.state%d_log%d%s" % (int(h["state"]), int(h["log"]), ".reload" if h.get("reload") else ""))
         if h.get("org_edit"):
             res.count("history.organisation_edited_between_calls")
+    if getattr(tr, "restored_from_json", False):
+        res.count("model_restored_from_json")
     res.count("steps", tr.rec.n_recorded)
     if not tr.out.ok:
         res.count("sut_exception")
